@@ -889,6 +889,21 @@ func (g *gen) doResize() {
 		sz = im.c.GetSize() - 4096*int64(g.rng.Intn(2))
 	}
 	fails := g.pickFails(g.nonErrBackends(), "Resize", 0.7)
+	// a replica that is already larger than the requested size refuses the request (it grew in an earlier
+	// resize that failed elsewhere and left the controller's size unchanged): that is the environment's answer too
+	for _, a := range g.nonErrBackends() {
+		if rep := im.w.Reps[a]; rep != nil && rep.Size > sz {
+			dup := false
+			for _, f := range fails {
+				dup = dup || f == a
+			}
+			if !dup {
+				fails = append(fails, a)
+				g.feat["resize-refused-by-a-larger-replica"] = true
+			}
+		}
+	}
+	sort.Strings(fails)
 	im.w.ResetLog()
 	err := im.c.Resize("v", fmt.Sprint(sz))
 	res := classify(err, "Size can only", "same as size")
